@@ -233,6 +233,8 @@ func genSrvScenario(rng *rand.Rand, cfg string) string {
 
 var srvTemplates = []string{
 	"1 ch1;xh;ra",
+	"- c1;dh1;c2;rc1;q2.1;d2",
+	"- c1;c2;dh2;c3;q1.1;rc2;q3.2",
 	"- c1;q1.7;d1;c2;q2.9;sh;j",
 	"2 c1;c2;c3;q1.5;d1;c4;sh;j",
 	"- c1;q1.5;d1",
